@@ -87,8 +87,8 @@ theorem loadInst_total (b : Bytes) : ∃ r, loadInst b = .ok r := by
 
 /-! ## accepted banks are playable: the note-on frequency search terminates
 
-`OPN2::noteOn` refuses `hertz < 0 || hertz > 131071` (fix e79c9cc; NaN fails neither test and +∞ fails the second) and
-otherwise runs two loops on `hertz`.  Whatever instrument fields an accepted bank or `opn2_setInstrument` supplied
+`OPN2::noteOn` returns for `hertz < 0` and clamps `hertz > 131071` (also +∞) to 131071 (fixes e79c9cc, 143739b), then
+runs two loops on `hertz`.  Whatever instrument fields an accepted bank or `opn2_setInstrument` supplied
 (all 2^16 note offsets, any drum key), the value reaching the loops is a finite double, i.e. a dyadic rational. -/
 
 /-- **C02, no hang at note-on**: for every frequency the guard lets through (any dyadic value up to 131071 Hz —
